@@ -10,12 +10,14 @@ Events == ndJsonDeserialize(IOEnv.TRACE_FILE)
 VARIABLES i, failed
 tvars == <<vars, i, failed>>
 
-ObsMatch(e, g, l, en, p) ==
+ObsMatchD(e, g, l, en, p, d) ==
     /\ DOMAIN e.obs.ein = Names
+    /\ \A u \in DOMAIN e.obs.attr : u \in Threads /\ e.obs.attr[u] = AttrDispatch(d, g, l, en, u)
     /\ \A b \in Names : e.obs.ein[b] = en[b]
     /\ e.obs.prev = p["all"]
     /\ \A u \in DOMAIN e.obs.disp : u \in Threads /\ e.obs.disp[u] = Dispatch(g, l, en, u)
     /\ \A u \in DOMAIN e.obs.cur : u \in Threads /\ e.obs.cur[u] = Get(g, l, u)
+ObsMatch(e, g, l, en, p) == ObsMatchD(e, g, l, en, p, disp)
 
 Verdict(e) ==
     IF ~(e.t \in Threads) THEN "Malformed"
@@ -30,6 +32,10 @@ Verdict(e) ==
     ELSE IF e.ev = "Default" THEN
         LET b == Get(glob, loc, e.t) IN
         IF ObsMatch(e, glob, loc, DefEin(prev, ein, b), DefPrev(prev, b)) THEN "ok" ELSE "UseDefaultObsMismatch"
+    ELSE IF e.ev = "Static" THEN
+        (IF ObsMatchD(e, glob, loc, ein, prev, ein[Get(glob, loc, e.t)]) THEN "ok" ELSE "StaticDispatchObsMismatch")
+    ELSE IF e.ev = "Dynamic" THEN
+        (IF ObsMatchD(e, glob, loc, ein, prev, "dyn") THEN "ok" ELSE "DynamicDispatchObsMismatch")
     ELSE "Malformed"
 
 DesignStep(e) ==
@@ -37,6 +43,8 @@ DesignStep(e) ==
       [] e.ev = "Select" -> Select(e.t, e.name, e.loc)
       [] e.ev = "Opt" -> UseOpt(e.t)
       [] e.ev = "Default" -> UseDefault(e.t)
+      [] e.ev = "Static" -> UseStatic(e.t)
+      [] e.ev = "Dynamic" -> UseDynamic(e.t)
 
 TraceInit == Init /\ i = 1 /\ failed = FALSE
 
@@ -45,7 +53,7 @@ TraceNext ==
     /\ i' = i + 1
     /\ LET e == Events[i] IN
          IF e.ev = "Reset" THEN
-             /\ glob' = InitGlob /\ loc' = InitLoc /\ ein' = InitEin /\ prev' = InitPrev
+             /\ disp' = "dyn" /\ glob' = InitGlob /\ loc' = InitLoc /\ ein' = InitEin /\ prev' = InitPrev
              /\ nops' = 0 /\ last' = [op |-> None, t |-> None, b |-> None]
              /\ failed' = FALSE
          ELSE IF failed THEN UNCHANGED <<vars, failed>>
